@@ -5,5 +5,5 @@ CONSTANTS
   MaxDepth = 2
   Ordered = FALSE
   Exits = TRUE
-INVARIANTS RetagAlwaysRejected
+INVARIANTS OneTidPerThread
 CHECK_DEADLOCK FALSE
